@@ -2,53 +2,75 @@
   C14  ABOR at any moment stops the transfer, is answered, and keeps the session usable.
 
   Full statement: for every transfer verb and every position of its worker, ABOR is answered 426+226 when a
-  worker was interrupted, a single 226 otherwise, and the session stays alive.  On the pinned tree this is
-  FALSE at the position "worker waiting for the data connection" (finding F3): the decorators of the nested
-  workers are `[ConnectionConditions(wait=True), worker]`, so the cancellation lands outside `worker`.
-  The theorems below are decisions over the REGENERATED decorator order.
+  worker was interrupted, a single 226 otherwise, and the session stays alive.  The theorems are decisions over
+  the REGENERATED decorator order of the five nested workers (`Generated.Verb.workerGuards`) and the regenerated
+  shape of `Server.abor` (`Generated.aborCountsFinished`).
+
+  History: on the pinned tree the statement was FALSE at two positions — "worker waiting for the data
+  connection" (finding F3: the decorators were `[ConnectionConditions(wait=True), worker]`, the cancellation
+  landed outside `worker`) and "worker finished, not yet reaped" (finding F13).  Both are repaired in /repo
+  (272a27e, 1209e30); `old_order_drops_session` and `old_abor_unanswered` keep the negative witnesses as
+  statements about the OLD shapes, so a return to them is named by the model.
 -/
 import AioftpModel.Model.Abort
 
 namespace C14
 open Model Model.Abort Generated
 
-/-- the decorator order of all five nested workers, as found in the source now -/
-theorem worker_stacks : ∀ v ∈ transferVerbs, v.workerGuards = [.conn [.dataConnection] true 425, .worker] := by
+/-- the decorator order of all five nested workers, as found in the source now: `worker` outermost -/
+theorem worker_stacks : ∀ v ∈ transferVerbs, v.workerGuards = [.worker, .conn [.dataConnection] true 425] := by
   decide
 
 /-- only the five transfer verbs have a worker at all -/
 theorem only_transfers_have_workers : ∀ v ∈ Verb.all, v ∉ transferVerbs → v.workerGuards = [] := by decide
 
-/-- **abor_answered_partial**: at every position except `waitData`, for every transfer verb:
-    interrupted → 426 then 226; nothing to interrupt → a single 226; the session stays alive. -/
-theorem abor_answered_partial : ∀ v ∈ transferVerbs,
-    abor v.workerGuards .inBody = ⟨[426, 226], true⟩ ∧ abor v.workerGuards .none = ⟨[226], true⟩ := by
-  decide
+/-- what the property asks of ABOR at a position: 426 then 226 when a worker was interrupted, one 226 otherwise -/
+def wanted : Pos → Outcome
+  | .none => ⟨[226], true⟩
+  | .finishedUnreaped => ⟨[226], true⟩
+  | .waitData => ⟨[426, 226], true⟩
+  | .inBody => ⟨[426, 226], true⟩
 
-/-- **negative witness (finding F3)**: ABOR while the worker waits for the data connection is answered by
-    nothing and the session is dropped — for every transfer verb. -/
-theorem abor_while_waiting_drops_session : ∀ v ∈ transferVerbs,
-    abor v.workerGuards .waitData = ⟨[], false⟩ := by
-  decide
+/-- **abor_answered** (full strength): for every transfer verb and EVERY position of its worker the answer
+    is the wanted one and the session stays alive. -/
+theorem abor_answered : ∀ v ∈ transferVerbs, ∀ pos : Pos, abor v.workerGuards pos = wanted pos := by
+  intro v hv pos
+  have h := worker_stacks v hv
+  rw [h]
+  cases pos <;> decide
 
-/-- **negative witness (finding F13)**: ABOR handled after the worker finished but before the dispatcher
-    reaped it is not answered at all (the session survives, the client waits for a 226 that never comes). -/
-theorem abor_unanswered_when_worker_unreaped : ∀ v ∈ transferVerbs,
-    abor v.workerGuards .finishedUnreaped = ⟨[], true⟩ := by
-  decide
+/-- the session survives ABOR at every position, for every transfer verb -/
+theorem abor_keeps_session (v : Verb) (hv : v ∈ transferVerbs) (pos : Pos) :
+    (abor v.workerGuards pos).alive = true := by
+  rw [abor_answered v hv pos]; cases pos <;> rfl
 
-/-- the defect is exactly the decorator order: with `worker` outermost every position is answered -/
-theorem abor_answered_if_worker_outermost (pos : Pos) (rest : List Guard) (h : pos ≠ .finishedUnreaped) :
-    (abor (.worker :: rest) pos).alive = true ∧
-    ((abor (.worker :: rest) pos).replies = [426, 226] ∨ (abor (.worker :: rest) pos).replies = [226]) := by
-  cases pos <;> simp [abor, caught, isWaitGuard] at h ⊢
+/-- ABOR is never left unanswered -/
+theorem abor_replies_nonempty (v : Verb) (hv : v ∈ transferVerbs) (pos : Pos) :
+    (abor v.workerGuards pos).replies ≠ [] := by
+  rw [abor_answered v hv pos]; cases pos <;> simp [wanted]
 
-/-- general form: ABOR is answered and survived iff no worker is running or the cancellation is caught -/
-theorem abor_alive_iff (guards : List Guard) (pos : Pos) :
-    (abor guards pos).alive = true ↔ (pos = .none ∨ pos = .finishedUnreaped ∨ caught guards pos = true) := by
-  cases pos <;> simp [abor] <;> split <;> simp_all
+/-- **old_order_drops_session** (what F3 was): with the wait wrapper outside `worker`, ABOR while the worker
+    waits for the data connection is answered by nothing and the session is dropped. -/
+theorem old_order_drops_session (c : Bool) :
+    aborWith c [.conn [.dataConnection] true 425, .worker] .waitData = ⟨[], false⟩ := by
+  cases c <;> decide
+
+/-- **old_abor_unanswered** (what F13 was): an ABOR that counts finished tasks is not answered at all when the
+    worker has finished but is not yet reaped. -/
+theorem old_abor_unanswered (guards : List Guard) : aborWith true guards .finishedUnreaped = ⟨[], true⟩ := rfl
+
+/-- the repair is exactly the decorator order: with `worker` outermost every position is answered -/
+theorem abor_answered_if_worker_outermost (c : Bool) (pos : Pos) (rest : List Guard) (h : pos ≠ .finishedUnreaped) :
+    (aborWith c (.worker :: rest) pos).alive = true ∧
+    ((aborWith c (.worker :: rest) pos).replies = [426, 226] ∨ (aborWith c (.worker :: rest) pos).replies = [226]) := by
+  cases pos <;> simp [aborWith, caught, isWaitGuard] at h ⊢
+
+/-- general form: ABOR is survived iff no worker is running or the cancellation is caught -/
+theorem abor_alive_iff (c : Bool) (guards : List Guard) (pos : Pos) :
+    (aborWith c guards pos).alive = true ↔ (pos = .none ∨ pos = .finishedUnreaped ∨ caught guards pos = true) := by
+  cases pos <;> simp [aborWith] <;> split <;> simp_all
 
 /-- non-vacuity: the positions are distinguishable on the real table -/
-example : abor Verb.retr.workerGuards .inBody ≠ abor Verb.retr.workerGuards .waitData := by decide
+example : abor Verb.retr.workerGuards .inBody ≠ abor Verb.retr.workerGuards .none := by decide
 
 end C14
